@@ -112,6 +112,14 @@ CLAIMED.update({
         ref="DESIGN.md C18, notes/C18.md"),
 })
 
+CLAIMED.update({
+    "C13": dict(
+        text="The report is modelled as a structure (rows, summary, warnings, LCD list) computed from an abstract annotated kernel, and cell formatting by an exact fixed-point formatter of binary64 values. Proved for every request and analysis: the summary row is the totals / CP sum / maximum LCD latency of the machine-readable output; every shown cell is the dict value (blank iff zero and port unused); the LCD column marks the first maximal cycle; X marks iff tp_unknown; totals printed iff --ignore-unknown or no unknown line; the missing-data warning states the number of X lines; arch warning iff no --arch; length warning iff unmarked, no --lines and > 100 parsed lines; the LCD list is complete; fmt_fixed reads back as the exact value rounded half-even at the shown precision (induction on the digit generator); default arch by detected ISA. Real reports (text + YAML) from the CLI on shipped and generated kernels x models x options are tokenised by layout only and judged by the model's checker evaluated in Coq; fmt_fixed is compared with CPython's format character by character.",
+        note="Trusted: Coq kernel + primitive floats; the tokeniser (layout knowledge only); column widths/alignment of str.format and repr() of CP/LCD cells are runtime residue (compared as doubles).",
+        technique="Coq proofs about a report-structure model and an exact decimal formatter + differential checking of real text/YAML reports",
+        ref="DESIGN.md C13, notes/C13.md"),
+})
+
 REASON_PENDING = "check under construction in this session (see DESIGN.md); not yet claimed"
 
 
